@@ -127,6 +127,11 @@ func (fw *FileWriter) openExistingFile() error {
 	headerBuf := make([]byte, FileHeaderSize)
 	if _, err := io.ReadFull(file, headerBuf); err != nil {
 		file.Close()
+		if errors.Is(err, io.EOF) || errors.Is(err, io.ErrUnexpectedEOF) {
+			// The process died while this file was being created: the header is
+			// incomplete, so no block can have been written. Start over.
+			return fw.createNewFile()
+		}
 		return err
 	}
 
@@ -136,17 +141,66 @@ func (fw *FileWriter) openExistingFile() error {
 		return err
 	}
 
+	info, err := file.Stat()
+	if err != nil {
+		file.Close()
+		return err
+	}
+	if info.Size() < fw.header.DataStartOffset() {
+		// Header complete but the swamp name after it is not: same situation,
+		// and appending here would put blocks where the name belongs.
+		file.Close()
+		return fw.createNewFile()
+	}
+
+	// Find the end of the last complete block. A crash can leave a torn block
+	// (partial header or partial data) at the tail; appending behind it would
+	// make every later block unreadable, so cut it off first.
+	validEnd, err := lastCompleteBlockEnd(file, fw.header.DataStartOffset(), info.Size())
+	if err != nil {
+		file.Close()
+		return err
+	}
+	if validEnd < info.Size() {
+		if err := file.Truncate(validEnd); err != nil {
+			file.Close()
+			return err
+		}
+	}
+
 	fw.file = file
 	fw.blockCount = fw.header.BlockCount
 	fw.entryCount = fw.header.EntryCount
 
-	// Seek to end for appending
-	if _, err := file.Seek(0, io.SeekEnd); err != nil {
+	// Seek to the end of the valid data for appending
+	if _, err := file.Seek(validEnd, io.SeekStart); err != nil {
 		file.Close()
 		return err
 	}
 
 	return nil
+}
+
+// lastCompleteBlockEnd walks the block headers from dataStart and returns the
+// offset just past the last block that is completely contained in the file.
+func lastCompleteBlockEnd(file *os.File, dataStart, size int64) (int64, error) {
+	pos := dataStart
+	headerBuf := make([]byte, BlockHeaderSize)
+	for pos+BlockHeaderSize <= size {
+		if _, err := file.ReadAt(headerBuf, pos); err != nil {
+			return 0, err
+		}
+		var bh BlockHeader
+		if err := bh.Deserialize(headerBuf); err != nil {
+			return 0, err
+		}
+		next := pos + BlockHeaderSize + int64(bh.CompressedSize)
+		if next > size {
+			break
+		}
+		pos = next
+	}
+	return pos, nil
 }
 
 // validateEntry rejects entries the on-disk format cannot represent: the key
